@@ -55,6 +55,16 @@ FAMILY = [
     "SELECT a FROM int1.t1 WHERE a > 0 LIMIT 0",
     "SELECT a FROM int1.t1 ORDER BY id LIMIT 2 OFFSET 0",
     "SELECT a FROM int1.t1 WHERE b = 0 OR a = 0",
+    # correlated subqueries: outer alias (also one spelled like the integration) referenced from the inner scope, inner table with a
+    # column of the same name
+    "SELECT int1.a FROM int1.t1 AS int1 WHERE EXISTS (SELECT 1 FROM int1.t2 WHERE t2.id = int1.id)",
+    "SELECT q.a FROM int1.t1 AS q WHERE EXISTS (SELECT 1 FROM int1.t2 WHERE t2.id = q.id)",
+    "SELECT int1.a FROM int1.t1 AS int1 WHERE NOT EXISTS (SELECT 1 FROM int1.t2 AS u WHERE u.id = int1.id AND u.c > 0)",
+    "SELECT a FROM int1.t1 AS int1 WHERE int1.b IN (SELECT t2.c FROM int1.t2 WHERE t2.id = int1.id)",
+    "SELECT int1.a, (SELECT count(*) FROM int1.t2 WHERE t2.id = int1.id) AS n FROM int1.t1 AS int1",
+    "SELECT t1.a, (SELECT max(c) FROM int1.t2 WHERE t2.id = t1.id) AS m FROM int1.t1",
+    "SELECT int1.t1.a FROM int1.t1 WHERE EXISTS (SELECT 1 FROM int1.t2 WHERE int1.t2.id = int1.t1.id)",
+    "SELECT x.a FROM int1.t1 AS x WHERE x.a > (SELECT count(*) FROM int1.int1 AS int1 WHERE int1.id = x.id)",
     "SELECT INT1.t1.a FROM INT1.t1",
     "SELECT a FROM Int1.t1 WHERE Int1.t1.b = 1",
 ]
@@ -103,7 +113,7 @@ def check_member(sql, R, D, timeout_ms=120000):
     s.add(SR.bags_differ(a, b))
     t0 = time.time()
     r = str(s.check())
-    out = dict(info, solver_s=round(time.time() - t0, 2), problems=problems)
+    out = dict(info, solver_s=round(time.time() - t0, 4), problems=problems)
     if r == 'sat':
         m = s.model()
         out.update(status='counterexample', kind='rows', witness={'db': db.concrete(m), 'original_rows': SR.concrete_rows(a, m), 'pushed_rows': SR.concrete_rows(b, m)})
@@ -125,7 +135,7 @@ def replay_member(sql, witness):
     from mindsdb_sql.planner import plan_query
     plan = plan_query(parse_sql(sql, 'mindsdb'), **PL.catalog())
     pushed = str(plan.steps[0].query).replace('`', '"')
-    con = sqlite3.connect(':memory:')
+    con = SR.connect()
     con.execute("ATTACH DATABASE ':memory:' AS int1")
     for t, cols in SCHEMA.items():
         con.execute('CREATE TABLE int1.%s (%s)' % (t, ', '.join('%s INTEGER' % c for c in cols)))
@@ -136,7 +146,7 @@ def replay_member(sql, witness):
     except Exception as e:  # noqa
         return False, {'note': 'sqlite cannot run the original: %s' % e}
     # the pushed query runs INSIDE the integration: a database that knows its tables but not the name "int1"
-    con2 = sqlite3.connect(':memory:')
+    con2 = SR.connect()
     for t, cols in SCHEMA.items():
         con2.execute('CREATE TABLE %s (%s)' % (t, ', '.join('%s INTEGER' % c for c in cols)))
         for r in witness['db'].get(t, []):
@@ -167,7 +177,7 @@ def validate_member(sql, R, D, rnd, n=2):
         if str(s.check()) != 'sat':
             continue
         got = SR.concrete_rows(rel, s.model())
-        con = sqlite3.connect(':memory:')
+        con = SR.connect()
         con.execute("ATTACH DATABASE ':memory:' AS int1")
         for t, cols in SCHEMA.items():
             con.execute('CREATE TABLE int1.%s (%s)' % (t, ', '.join('%s INTEGER' % c for c in cols)))
